@@ -52,6 +52,44 @@ theorem reschedule_is_next_occurrence (setT : St → St) (s : St) (j : Nat) (p :
     rw [hjobs]; simp [hnr]
 
 
+/-- the same with the hypothesis about the zone discharged: for every sorted transition table whose offsets span
+less than 24 h − 121 min (`Zone.narrowB`, an executable test) and every trigger of the time / interval / group
+fragment, the run time a recurring job reports after an execution is the least admissible occurrence of its
+trigger after the execution instant -/
+theorem reschedule_is_next_occurrence_narrow (setT : St → St) (s : St) (j : Nat) (p : Producer)
+    (hk : (s.job j).kind = .recurring p) (hl : (s.job j).linked = true)
+    (hz : s.env.zone.narrowB = true) (hw : C05.Wf (p.anchorAt s.now))
+    (hnofail : (s.job j).trigFail.contains (s.job j).calls = false)
+    (hnoperm : ¬ (s.job j).trigFailFrom ≤ (s.job j).calls)
+    (r : Int) (hr : getNext s.env (p.anchorAt s.now) s.now = .ok r) :
+    LeastAfter (C05.Adm s.env (p.anchorAt s.now)) s.now r ∧
+    (updateNext setT s j).2 = none ∧ ((updateNext setT s j).1.job j).nextRun = some r :=
+  reschedule_is_next_occurrence setT s j p hk hl (C05.inFragment_of_narrow s.env hz _ hw) hnofail hnoperm r hr
+
+/-- **a redundant `resume()` changes nothing**: a recurring job that is RUNNING for `n` — the least admissible
+occurrence after some earlier instant `t0` (its creation, last execution or last resume) — and is resumed at an
+instant `now` with `t0 ≤ now < n` asks its trigger again and announces the very same `n`: the pending occurrence is
+neither skipped nor moved. (`p` is anchored: `anchorAt` is the identity after the first query, C15.) -/
+theorem resume_keeps_announcement (setT : St → St) (s : St) (j : Nat) (p : Producer)
+    (hk : (s.job j).kind = .recurring p) (hl : (s.job j).linked = true) (hanch : p.anchorAt s.now = p)
+    (hf : C05.InFragment s.env p)
+    (hnofail : (s.job j).trigFail.contains (s.job j).calls = false)
+    (hnoperm : ¬ (s.job j).trigFailFrom ≤ (s.job j).calls)
+    (t0 n : Int) (hn : LeastAfter (C05.Adm s.env p) t0 n) (h0 : t0 ≤ s.now) (h1 : s.now < n)
+    (r : Int) (hr : getNext s.env p s.now = .ok r) :
+    r = n ∧ (updateNext setT s j).2 = none ∧ ((updateNext setT s j).1.job j).nextRun = some n := by
+  have hr' : getNext s.env (p.anchorAt s.now) s.now = .ok r := by rw [hanch]; exact hr
+  obtain ⟨hleast, hok, hnr⟩ := reschedule_is_next_occurrence setT s j p hk hl (by rw [hanch]; exact hf)
+    hnofail hnoperm r hr'
+  rw [hanch] at hleast
+  obtain ⟨hA, hgt, hmin⟩ := hleast
+  obtain ⟨hAn, _, hminn⟩ := hn
+  have e : r = n := by
+    have a := hmin n hAn h1
+    have b := hminn r hA (by omega)
+    omega
+  exact ⟨e, hok, by rw [hnr, e]⟩
+
 /-- One round of a recurring job, in every reachable state and whatever else is queued or happens in the same
 wake-up (other due jobs, failing callables and callbacks, jobs that finish, the timer being re-armed
 recursively): when the loop runs and the job's reported run time `t` has been reached, the job is executed in
